@@ -88,10 +88,11 @@ func fnExec(ctx *cmdContext, args map[string]any) (output respValue, err error) 
 		return
 	}
 
-	// a queued FLUSHALL needs every data store: the lock that orders such operations is taken
-	// before our own data store, or two transactions could wait for each other's data store
+	// a queued FLUSHALL needs every data store, and a queued SELECT makes a FLUSHDB after it empty
+	// another data store than ours: the lock that orders operations on several data stores is taken
+	// before our own data store, or two of them could wait for each other's data store
 	for _, cc := range *ctx.cs.cmdQueue {
-		if cc.cmdToken == "flushall" {
+		if cc.cmdToken == "flushall" || cc.cmdToken == "select" {
 			multiDataStoreLock.Lock()
 			defer multiDataStoreLock.Unlock()
 			ctx.cs.multiStoreLockHeld = true
